@@ -20,8 +20,9 @@
 # Nesting is not described in Meson's own documentation; it is the documented behaviour of the format's home (cmake-language(7):
 # "Variable references can nest and are evaluated from the inside out", configure_file(): @VAR@ and ${VAR} are both references),
 # the reference implements that rule and - where a cmake(1) is installed - is compared with it line by line.
-# Family "directive spelling" (cmake formats): every sequence of <= 3 (quick) / <= 4 (thorough) fragments of a 17-fragment alphabet of
+# Family "directive spelling" (cmake formats): every sequence of <= 3 (quick) / <= 4 (thorough) fragments of a 19-fragment alphabet of
 # directives ('#cmakedefine A', '# cmakedefine A', '#<tab>cmakedefine01 A', ' #cmakedefine A', ' # cmakedefine A B', '#cmakedefine01 A'),
+# longer words that begin with the keyword ('#cmakedefined A', '#cmakedefine01x A': ordinary text),
 # blanks and tabs, value words (' @B@', ' ${B}', ' @U@', ' B', ' x'), line endings and filler x the 100 data sets x {cmake, cmake@}.
 # Which white space the output keeps is not specified (CMake keeps it in '#  define VAR' and drops it in '/* #undef VAR */'), so lines
 # whose directive is not in the documented spelling are compared as (define | undef, NAME, VALUE) + line ending.
@@ -84,20 +85,49 @@ K_SWALLOW = 'C14:cmake:empty-value-swallows-next-placeholder'
 K_ARGMISS = 'C14:cmake:cmakedefine-arg-undefined-not-reported'
 K_HANG = 'C14:cmake:self-referential-value-never-terminates'
 K_BARE = 'C14:cmake:cmakedefine-word-that-is-a-key-replaced'
+# '#mesondefined VAR', '#cmakedefine01x VAR': a longer word that merely begins with the keyword is taken for the directive
+K_KWPREFIX_MESON = 'C14:meson:mesondefine-keyword-prefix-of-longer-word'
+K_KWPREFIX_CMAKE = 'C14:cmake:cmakedefine-keyword-prefix-of-longer-word'
 K_KWNAME = 'C14:cmake:indented-hash-space-cmakedefine'     # '# cmakedefine VAR': the keyword is taken for the name of the variable
-HANG_S = 3                 # watchdog per real call (a call takes ~10 us)
+# Non-termination is judged by the CPU time the call itself burns, not by the wall clock: on a loaded machine a process can be kept off
+# the CPU for seconds, which says nothing about the code under test (a real call takes ~10 us of CPU).  A call that exhausts the first
+# allowance is only a suspect: the same single input is run again with a larger allowance in the same process, and once more, alone, in
+# the parent process before anything is reported.  The wall-clock alarm is a backstop for a call that blocks without using the CPU.
+HANG_CPU_S = 5             # CPU seconds (user time of this process) of the first attempt
+HANG_CONFIRM_CPU_S = 10    # CPU seconds of a confirmation run of a single suspected input
+HANG_WALL_S = 1200         # wall-clock backstop per call
 HANG_CLASS_LIVE = False    # decided by probes in the parent: skip the (unspecified) self-referential class if it hangs
+HSTATS = {'suspects': 0, 'cleared': 0, 'hangs': 0}     # per process: calls that exhausted the first allowance / that finished on the second attempt
 
 
 class Hang(BaseException):
     pass
 
 
+_ARMED = False
+
+
 def _on_alarm(sig, frm):
-    raise Hang()
+    if _ARMED:             # a signal that was already on its way when the watchdog was taken down is not a verdict
+        raise Hang()
 
 
 signal.signal(signal.SIGALRM, _on_alarm)
+signal.signal(signal.SIGVTALRM, _on_alarm)
+
+
+def arm(cpu_s=None):
+    global _ARMED
+    _ARMED = True
+    signal.alarm(HANG_WALL_S)
+    signal.setitimer(signal.ITIMER_VIRTUAL, cpu_s or HANG_CPU_S)
+
+
+def disarm():
+    global _ARMED
+    _ARMED = False
+    signal.setitimer(signal.ITIMER_VIRTUAL, 0)
+    signal.alarm(0)
 
 
 def self_referential(text, fmt, a, b):
@@ -300,6 +330,12 @@ def norm_line(line, spelled):
     body, eol = split_eol(line)
     return (define_triple(body), eol)
 
+# The documented placeholders are the lines '#mesondefine TOKEN' (Configuration.md) / '#cmakedefine VAR ...', '#cmakedefine01 VAR' (CMake's
+# configure_file(): '#', blanks, the keyword, blanks, the name).  A word that merely begins with the keyword ('#mesondefined', '#cmakedefine01x',
+# '#cmakedefines') is another word: such a line is ordinary text (its @VAR@ / ${VAR} are still placeholders).
+_LONGER_MESON = re.compile(r'#mesondefine[A-Za-z0-9_]')
+_LONGER_CMAKE = re.compile(r'[ \t]*#[ \t]*cmakedefine(?!01(?:[ \t]|\Z))[A-Za-z0-9_]')
+_DIRECTIVE_OUTPUT = re.compile(r'[ \t]*(#[ \t]*define[ \t\r\n]|#[ \t]*undef[ \t]|/\*[ \t]*#?[ \t]*undef[ \t])')
 _SPEC_CACHE = {}
 
 
@@ -322,7 +358,8 @@ def _eoltags(eol):
 def _analyse(line, fmt):
     body, eol = split_eol(line)
     if fmt == 'meson':
-        if body.startswith('#mesondefine'):
+        longer = _LONGER_MESON.match(body) is not None
+        if body.startswith('#mesondefine') and not longer:
             toks = body.split()
             if toks[0] != '#mesondefine':
                 return ('unspec', 'meson:define-token')
@@ -335,17 +372,20 @@ def _analyse(line, fmt):
             if body.lstrip().startswith('#cmakedefine'):
                 return ('error', frozenset({'error-wrong-format'}))           # pinned: '#cmakedefine VAR' in meson raises
             return ('unspec', 'meson:cmakedefine-not-at-line-start')
-        if 'mesondefine' in body:
+        if 'mesondefine' in body and not longer:
             if body.lstrip().startswith('#mesondefine'):
                 return ('unspec', 'meson:indented-mesondefine')
             if re.match(r'\s*#\s+mesondefine', body):
                 return ('unspec', 'meson:spaced-mesondefine')
             # anything else before the keyword: not "a line like #mesondefine TOKEN" -> ordinary text
         segs, tags = scan_meson(body)
+        if longer:
+            tags.add('keyword-in-longer-word')
         return ('plain', segs, eol, frozenset(tags | _eoltags(eol)))
     at_only = fmt == 'cmake@'
-    ms = _CMAKEDEF_SPELLED.match(body) if 'cmakedefine' in body else None
-    if ms or body.startswith('#cmakedefine'):
+    longer = 'cmakedefine' in body and _LONGER_CMAKE.match(body) is not None
+    ms = _CMAKEDEF_SPELLED.match(body) if 'cmakedefine' in body and not longer else None
+    if ms or (body.startswith('#cmakedefine') and not longer):
         m = _CMAKEDEF.match(body)
         stags = set()
         if m:
@@ -372,7 +412,7 @@ def _analyse(line, fmt):
         if body.lstrip().startswith('#mesondefine'):
             return ('error', frozenset({'error-wrong-format'}))               # pinned: '#mesondefine VAR' in cmake raises
         return ('unspec', 'cmake:mesondefine-not-at-line-start')
-    if 'cmakedefine' in body:
+    if 'cmakedefine' in body and not longer:
         s = body.lstrip()
         if s.startswith('#') and s[1:].lstrip().startswith('cmakedefine'):
             return ('unspec', 'cmake:cmakedefine-form')
@@ -380,6 +420,8 @@ def _analyse(line, fmt):
     segs, tags = scan_cmake(body, at_only)
     if segs is None:
         return ('unspec', 'cmake:${-malformed')
+    if longer:
+        tags.add('keyword-in-longer-word')
     return ('plain', segs, eol, frozenset(tags | _eoltags(eol)))
 
 
@@ -540,21 +582,55 @@ def cd_for_data(data):
     return r
 
 
-def run_real(lines, cd, fmt):
-    signal.alarm(HANG_S)
+def run_real_once(lines, cd, fmt, cpu_s):
     try:
+        arm(cpu_s)
         res, missing, _ = do_conf_str('t.in', list(lines), cd, fmt)
     except MesonException as e:
         return ('err', str(e)[:120])
     except Exception as e:
         return ('crash', '%s: %s' % (type(e).__name__, str(e)[:120]))
     except Hang:
-        return ('hang', 'no result after %d s' % HANG_S)
+        return ('hang', 'no result after %d s of CPU time' % cpu_s)
     finally:
-        signal.alarm(0)
+        disarm()
     if not isinstance(res, list) or len(res) != len(lines) or not all(isinstance(x, str) for x in res):
         return ('crash', 'result is not a list of %d strings: %r' % (len(lines), res))
     return ('ok', res, set(missing))
+
+
+def run_real(lines, cd, fmt):
+    r = run_real_once(lines, cd, fmt, HANG_CPU_S)
+    if r[0] == 'hang':
+        # suspected only: the single input again, with a larger allowance
+        HSTATS['suspects'] += 1
+        r = run_real_once(lines, cd, fmt, HANG_CONFIRM_CPU_S)
+        if r[0] != 'hang':
+            HSTATS['cleared'] += 1
+        else:
+            HSTATS['hangs'] += 1
+    return r
+
+
+_CONFIRMED_KEYS = set()
+
+
+def is_hang_key(key):
+    return key == K_HANG or key.endswith(':hang')
+
+
+def confirmed(key, rep):
+    """A hang reported by a worker is confirmed by running the single input alone in this process; every other finding is taken as it is."""
+    if not is_hang_key(key) or 'template' not in rep or rep.get('part') != 'template' or key in _CONFIRMED_KEYS:
+        return True
+    data = rep['data']
+    r = run_real_once(split_lines(rep['template']), cd_for_data(data), rep['format'], HANG_CONFIRM_CPU_S)
+    HSTATS['confirmation_runs'] = HSTATS.get('confirmation_runs', 0) + 1
+    if r[0] != 'hang':
+        HSTATS['not_confirmed'] = HSTATS.get('not_confirmed', 0) + 1
+    else:
+        _CONFIRMED_KEYS.add(key)       # further witnesses of the class have been through the two attempts in their worker
+    return r[0] == 'hang'
 
 
 def kind(v):
@@ -630,7 +706,8 @@ def check_template(acc, text, frags, fmts, datasets, verbose=False):
             if HANG_CLASS_LIVE and self_referential(text, fmt, a, b):
                 acc.add('skipped_self_referential_cmake_value')
                 continue
-            if acc.hangs >= 2:
+            if acc.hangs >= 2 or HSTATS['hangs'] >= 4:
+                # (a real non-termination costs HANG_CPU_S + HANG_CONFIRM_CPU_S of CPU time per case: two witnesses per shard, four per process)
                 acc.add('not_run_after_hangs')
                 continue
             r = run_real(lines, cd, fmt)
@@ -754,6 +831,11 @@ def oracle2(acc, lines, specs, unspec_lines, exp_err, r, fmt, data, rep, verbose
                 acc.skip(why)       # e.g. a composed name that is not a name: Meson rejects it, CMake looks it up
                 return
             nest = sorted({t for s_ in specs if s_[0] in ('plain', 'define') for t in (s_[5] if s_[0] == 'define' else s_[3]) if 'nested' in t})
+            if any(s_[0] == 'plain' and 'keyword-in-longer-word' in s_[3] for s_ in specs) and 'define' in r[1]:
+                # the line of the longer word was taken for a directive and rejected as a malformed one
+                acc.violation(K_KWPREFIX_MESON if fmt == 'meson' else K_KWPREFIX_CMAKE, 'template %r raised %s' % (rep['template'], r[1]),
+                              dict(rep, oracle='reference', expected='no error', observed=r[1]))
+                return
             acc.violation('C14:%s:unexpected-error' % fmt + (':' + '+'.join(nest) if nest else ''), 'template %r raised %s' % (rep['template'], r[1]),
                           dict(rep, oracle='reference', expected='no error', observed=r[1]))
         return
@@ -761,7 +843,7 @@ def oracle2(acc, lines, specs, unspec_lines, exp_err, r, fmt, data, rep, verbose
         acc.violation('C14:%s:missing-error' % fmt, 'template %r must be rejected (pinned) but produced %r' % (rep['template'], r[1]),
                       dict(rep, oracle='reference', expected='MesonException', observed=repr(r[1])))
         return
-    exp_missing, argmiss, complete, swallow = set(), set(), True, False
+    exp_missing, argmiss, complete, swallow, kwprefix = set(), set(), True, False, False
     for i, spec in enumerate(specs):
         act = r[1][i]
         if spec[0] == 'unspec':
@@ -787,6 +869,9 @@ def oracle2(acc, lines, specs, unspec_lines, exp_err, r, fmt, data, rep, verbose
                 p = swallow_prefix(segs, fmt, data)
                 if p is not None and act.startswith(p):
                     key, swallow = K_SWALLOW, True
+            if 'keyword-in-longer-word' in spec[3] and _DIRECTIVE_OUTPUT.match(act):
+                # the output is a define / undef line: the longer word was taken for the directive
+                key, kwprefix = (K_KWPREFIX_MESON if fmt == 'meson' else K_KWPREFIX_CMAKE), True
             acc.violation(key, 'line %r (%s) with %r: expected %r, observed %r' % (lines[i], fmt, data, exp, act),
                           dict(rep, oracle='reference', line=i, expected=exp, observed=act))
             continue
@@ -854,6 +939,8 @@ def oracle2(acc, lines, specs, unspec_lines, exp_err, r, fmt, data, rep, verbose
                 key = K_ARGMISS
             elif swallow:
                 key = K_SWALLOW
+            elif kwprefix:
+                key = K_KWPREFIX_MESON if fmt == 'meson' else K_KWPREFIX_CMAKE
             else:
                 key = 'C14:%s:missing-set' % fmt
             acc.violation(key, 'template %r (%s) with %r: undefined names in placeholder position %r, reported %r' % (
@@ -920,10 +1007,26 @@ def build_names_family(maxlen):
     return out, total, data
 
 
+NOT_CONFIRMED = []
+
+
+def report(ck, key, what, rep):
+    """A finding of a worker process is reported as it is, except a non-termination: that one only after the single input has not
+       terminated in this process either."""
+    if confirmed(key, rep):
+        ck.violation(key, what, rep)
+    else:
+        NOT_CONFIRMED.append({'key': key, 'template': rep.get('template'), 'format': rep.get('format'), 'data': repr(rep.get('data'))})
+
+
 def nstat_flush(acc):
     for k, v in NSTAT.items():
         acc.add('ref_' + k, v)
     NSTAT.clear()
+    for k in ('suspects', 'cleared'):       # (absent from the counts unless a call ever exhausted its first CPU allowance)
+        if HSTATS[k]:
+            acc.add('hang_' + k + '_after_%ds_cpu' % HANG_CPU_S, HSTATS[k])
+            HSTATS[k] = 0
 
 
 def names_shard(rng):
@@ -954,7 +1057,7 @@ def names_family(ck, maxlen):
         for key, what, rep in res['viol']:
             first = key not in seen
             seen.add(key)
-            ck.violation(key, what, rep)
+            report(ck, key, what, rep)
             if first and any(k['key'] == key and k.get('status') == 'known' for k in ck.known):
                 ck.part('known_finding_witnesses', **{key: {'template': rep['template'], 'format': rep['format'], 'data': rep['data'],
                                                             'expected': rep.get('expected'), 'observed': rep.get('observed')}})
@@ -977,7 +1080,9 @@ def names_family(ck, maxlen):
 # directive wherever it stands after the indentation, and Meson announces "whitespace between `#` and `cmakedefine`" as a feature
 # (1.9.0).  What is kept of the white space is unspecified; the variable that is defined / undefined and its value are not.
 SFRAGS = ['#cmakedefine A', '# cmakedefine A', '#\tcmakedefine01 A', ' #cmakedefine A', ' # cmakedefine A B', '#cmakedefine01 A',
-          ' ', '\t', ' @B@', ' ${B}', ' @U@', ' B', ' x', '\n', '\r\n', 'x', '\x0c']
+          ' ', '\t', ' @B@', ' ${B}', ' @U@', ' B', ' x', '\n', '\r\n', 'x', '\x0c',
+          # longer words that begin with the keyword are not the directive (CMake leaves such lines alone): ordinary text
+          '#cmakedefined A', '#cmakedefine01x A']
 S_FORMATS = ['cmake', 'cmake@']
 S_TEMPLATES = []
 
@@ -1017,7 +1122,7 @@ def spelling_family(ck, maxlen):
         classes.update(res['classes'])
         for key, what, rep in res['viol']:
             seen.add(key)
-            ck.violation(key, what, rep)
+            report(ck, key, what, rep)
     ck.part('directive_spelling_family', fragments=SFRAGS, fragment_sequences=nseq, distinct_texts=nt, max_fragments=maxlen, formats=S_FORMATS,
             data_sets=len(DATASETS), shards=len(ranges),
             compared='(define | undef, NAME, VALUE) of the output line + its line ending where the directive is not in the documented spelling',
@@ -1030,6 +1135,98 @@ def spelling_family(ck, maxlen):
                and any('define-hash-gap' in c and 'crlf' in c for c in classes),
                'directive spelling family: "# cmakedefine VAR words" / the cmake@ format / CRLF not exercised')
     ck.require(tot.get('o3_missing_nonempty', 0) > 1000, 'directive spelling family: no undefined name in the value of a directive')
+    return tot, unspec, classes
+
+
+# ---- family "value names" (meson format): values that mention names, around #mesondefine directives and plain uses of the same names ---
+# The property quantifies over "all configuration dictionaries (including values that themselves look like placeholders)".  The name such a
+# value mentions may be bound (B), unbound (U, V) or the value's own key, and the same name may stand in placeholder position elsewhere in
+# the template - on an earlier line, on a later line, on the line itself, or nowhere.  Whatever a value mentions, the report of undefined
+# names is a function of the template's placeholder positions and the KEYS of the data alone: (3b) compares it with the reference, (1)
+# with the run on inert marker values.  Every sequence of <= 4 (quick) / <= 5 (thorough) fragments x every (A, B) of V_AV x V_BV.
+VFRAGS = ['#mesondefine A', '#mesondefine B', '@A@', '@B@', '@U@', '@V@', 'x', ' ', '\n', '\r\n',
+          # a longer word that begins with the keyword is not the directive: ordinary text
+          '#mesondefined A']
+V_AV = ['v', '@U@', 'p@U@q', '@V@', '@U@@V@', '@B@', '@A@', 7, True]
+V_BV = ['w', '@U@', '@A@', '', 0]
+V_FORMATS = ['meson']
+V_TEMPLATES = []
+V_DATASETS = [(a, b) for a in V_AV for b in V_BV]
+_VNAME = re.compile(r'@([A-Za-z0-9_]+)@')
+
+
+def value_names_stats(acc, text, lines):
+    """Anti-vacuity counters of the family (from the template text and the values, not from any output)."""
+    placed = set(_VNAME.findall(re.sub(r'(?m)^#mesondefine [AB]', '', text)))
+    for a, b in V_DATASETS:
+        for key, v in (('A', a), ('B', b)):
+            if not isinstance(v, str):
+                continue
+            mentioned = {n for n in _VNAME.findall(v) if n not in ('A', 'B')}
+            if not mentioned:
+                continue
+            dl = [i for i, l in enumerate(lines) if l.startswith('#mesondefine ' + key)]
+            if not dl:
+                continue
+            acc.add('define_of_value_mentioning_undefined_name')
+            for n in mentioned & placed:
+                use = [i for i, l in enumerate(lines) if '@%s@' % n in l and not l.startswith('#mesondefine')]
+                if use and min(use) > dl[0]:
+                    acc.add('same_undefined_name_in_placeholder_position_only_after_the_define')
+                if use and max(use) < dl[0]:
+                    acc.add('same_undefined_name_in_placeholder_position_only_before_the_define')
+            if not (mentioned & placed):
+                acc.add('undefined_name_mentioned_by_value_only')
+
+
+def values_shard(rng):
+    lo, hi = rng
+    acc = Acc()
+    NSTAT.clear()
+    for text, tup in V_TEMPLATES[lo:hi]:
+        check_template(acc, text, [VFRAGS[i] for i in tup], V_FORMATS, V_DATASETS)
+        if '#mesondefine' in text:
+            value_names_stats(acc, text, split_lines(text))
+    nstat_flush(acc)
+    return acc.dump()
+
+
+def values_family(ck, maxlen):
+    global V_TEMPLATES
+    seen_t, nseq = set(), 0
+    V_TEMPLATES = []
+    for n in range(1, maxlen + 1):
+        for tup in itertools.product(range(len(VFRAGS)), repeat=n):
+            nseq += 1
+            text = ''.join(VFRAGS[i] for i in tup)
+            if text not in seen_t:
+                seen_t.add(text)
+                V_TEMPLATES.append((text, tup))
+    nt = len(V_TEMPLATES)
+    step = max(8, nt // 160)
+    ranges = [(lo, min(nt, lo + step)) for lo in range(0, nt, step)]
+    tot, unspec, vcount, classes, seen = {}, {}, {}, set(), set()
+    for res in pmap(values_shard, ranges):
+        for k, v in res['n'].items():
+            tot[k] = tot.get(k, 0) + v
+        for k, v in res['unspec'].items():
+            unspec[k] = unspec.get(k, 0) + v
+        for k, v in res['vcount'].items():
+            vcount[k] = vcount.get(k, 0) + v
+        classes.update(res['classes'])
+        for key, what, rep in res['viol']:
+            seen.add(key)
+            report(ck, key, what, rep)
+    ck.part('value_names_family', fragments=VFRAGS, fragment_sequences=nseq, distinct_texts=nt, max_fragments=maxlen, formats=V_FORMATS,
+            data_sets=len(V_DATASETS), values_of_A=[repr(v) for v in V_AV], values_of_B=[repr(v) for v in V_BV], shards=len(ranges),
+            finding_class_case_counts=vcount, skipped_unspecified_by_reason=unspec, **tot)
+    ck.require(tot.get('o3_missing_sets_compared', 0) > 10000 and tot.get('o3_missing_nonempty', 0) > 1000 and tot.get('o1_cases', 0) > 10000,
+               'value names family: the report of undefined names was hardly ever compared')
+    ck.require(all(tot.get(k, 0) > 100 for k in ('same_undefined_name_in_placeholder_position_only_after_the_define',
+                                                 'same_undefined_name_in_placeholder_position_only_before_the_define',
+                                                 'undefined_name_mentioned_by_value_only')),
+               'value names family: a #mesondefine of a value that mentions an undefined name, with the same name in placeholder position '
+               'before / after it / nowhere, is not exercised')
     return tot, unspec, classes
 
 
@@ -1063,8 +1260,8 @@ def cmake_calibration(ck):
             if b not in seen and '\r' not in b:
                 seen.add(b)
                 spec = analyse(b + '\n', 'cmake')
-                if spec[0] == 'define' and spec[7]:
-                    bodies.append(b)
+                if (spec[0] == 'define' and spec[7]) or (spec[0] == 'plain' and 'keyword-in-longer-word' in spec[3] and b.count('cmakedefine') == 1):
+                    bodies.append(b)        # (only one keyword in the line: CMake also finds a directive further right, see above)
     datas = [d for d in N_DATASETS if all(isinstance(v, str) and '@' not in v and '$' not in v for v in d.values())]
     root = os.path.join(scratch_root(), 'cmakecal')
     shutil.rmtree(root, ignore_errors=True)
@@ -1083,7 +1280,7 @@ def cmake_calibration(ck):
     if p.returncode != 0:
         ck.part('cmake_calibration', cmake_available=True, cmake_failed=p.stdout[-300:])
         return 0
-    n = nested = skipped = spelled_n = 0
+    n = nested = skipped = spelled_n = longer_n = 0
     kept_ws = set()
     bad = []
     for i, d in enumerate(datas):
@@ -1107,6 +1304,7 @@ def cmake_calibration(ck):
                     continue
                 n += 1
                 nested += any('nested' in t for t in (spec[5] if spec[0] == 'define' else spec[3]))
+                longer_n += spec[0] == 'plain' and 'keyword-in-longer-word' in spec[3]
                 if spec[0] == 'define' and spec[7]:
                     spelled_n += 1
                     if g not in exp:
@@ -1120,7 +1318,7 @@ def cmake_calibration(ck):
     NSTAT.clear()
     # a disagreement is about the reference and the installed cmake, not about Meson: it is recorded and shown, the verdict does not depend on it
     ck.part('cmake_calibration', cmake_available=True, lines=len(bodies), all_string_data_sets=len(datas), lines_compared=n,
-            lines_with_composed_names_compared=nested, directive_lines_in_other_spelling_compared_as_triple=spelled_n,
+            lines_with_composed_names_compared=nested, lines_with_a_longer_word_beginning_with_the_keyword_compared=longer_n, directive_lines_in_other_spelling_compared_as_triple=spelled_n,
             cmake_keeps_white_space_in=sorted(kept_ws), unspecified_skipped=skipped, disagreements=len(bad), first_disagreements=bad[:3])
     if bad:
         print('note: the reference disagrees with %s on %d lines, first: %s' % (exe, len(bad), bad[0]), file=sys.stderr, flush=True)
@@ -1284,7 +1482,7 @@ def file_slice(ck, maxlen, seed):
                     os.unlink(dst)  # a refused rendering is not required to leave the previous output alone
                 earlier.append([a, b])
                 over += os.path.exists(dst)
-                signal.alarm(HANG_S)
+                arm()
                 try:
                     missing, _ = do_conf_file(src, dst, cd_for(a, b), fmt)
                     with open(dst, 'rb') as f:
@@ -1296,7 +1494,7 @@ def file_slice(ck, maxlen, seed):
                 except Hang:
                     got = ('hang',)
                 finally:
-                    signal.alarm(0)
+                    disarm()
                 if exp[0] == 'ok':
                     want = ('ok', ''.join(exp[1]).encode('utf-8'), exp[2])
                     if b'\r\n' in want[1]:
@@ -1332,7 +1530,7 @@ def file_slice(ck, maxlen, seed):
                     os.unlink(dst)
                 enc_n += 1
                 rep = {'part': 'file', 'template': text, 'format': fmt, 'data': {'A': a, 'B': b}, 'encoding': enc}
-                signal.alarm(HANG_S)
+                arm()
                 try:
                     do_conf_file(src, dst, cd_for(a, b), fmt, encoding=enc)
                     with open(dst, 'rb') as f:
@@ -1342,7 +1540,7 @@ def file_slice(ck, maxlen, seed):
                 except Exception as e:
                     got = '%s: %s' % (type(e).__name__, e)
                 finally:
-                    signal.alarm(0)
+                    disarm()
                 want = ''.join(exp[1]).encode(enc)
                 enc_nonascii += want != ''.join(exp[1]).encode('utf-8')
                 if got != want:
@@ -1573,6 +1771,10 @@ def main():
         cmake_calibration(ck)
         print(json.dumps(ck.parts, indent=1, sort_keys=True, default=repr))
         ck.finish(evaluations=ntot.get('evaluations', 0), distinct_nontrivial=len(nclasses), rule='names family only', exhaustive=True)
+    if ck.args.only == 'values':         # debugging: only the value names family
+        vtot, vunspec, vclasses = values_family(ck, ck.q(4, 5))
+        print(json.dumps(ck.parts, indent=1, sort_keys=True, default=repr))
+        ck.finish(evaluations=vtot.get('evaluations', 0), distinct_nontrivial=len(vclasses), rule='value names family only', exhaustive=True)
     nt = len(TEMPLATES)
     # contiguous shards, simplest first; smaller shards first so early (short) counterexamples surface in order
     step = max(50, nt // 320)
@@ -1590,7 +1792,7 @@ def main():
         for key, what, rep in res['viol']:
             first = key not in seen
             seen.add(key)
-            ck.violation(key, what, rep)
+            report(ck, key, what, rep)
             if first and any(k['key'] == key and k.get('status') == 'known' for k in ck.known):
                 ck.part('known_finding_witnesses', **{key: {'template': rep['template'], 'format': rep['format'], 'data': rep['data'],
                                                             'expected': rep.get('expected'), 'observed': rep.get('observed')}})
@@ -1615,9 +1817,12 @@ def main():
     t_enum = time.time()
     ntot, nunspec, nclasses = names_family(ck, ck.q(2, 3))
     stot, sunspec, sclasses = spelling_family(ck, ck.q(3, 4))
+    vtot, vunspec, vclasses = values_family(ck, ck.q(4, 5))
     cmake_calibration(ck)
-    ck.cov['skipped_unspecified'] += sum(nunspec.values()) + sum(sunspec.values())
-    classes |= nclasses | sclasses
+    ck.cov['skipped_unspecified'] += sum(nunspec.values()) + sum(sunspec.values()) + sum(vunspec.values())
+    classes |= nclasses | sclasses | vclasses
+    ck.part('hang_watchdog', cpu_seconds_first_attempt=HANG_CPU_S, cpu_seconds_confirmation=HANG_CONFIRM_CPU_S, wall_backstop_seconds=HANG_WALL_S,
+            confirmation_runs_in_parent=HSTATS.get('confirmation_runs', 0), reports_not_confirmed=NOT_CONFIRMED[:5])
     t_names = time.time()
     nfile = file_slice(ck, 2, ck.seed)
     t_file = time.time()
@@ -1632,18 +1837,20 @@ def main():
     ck.sample({'template': TEMPLATES[nt - 7][0], 'fragments': [FRAGS[i] for i in TEMPLATES[nt - 7][1]], 'formats': FORMATS})
     ck.sample({'template': '${A_@B@}x${${B}}\n', 'fragments': ['${A_@B@}', 'x', '${${B}}', '\n'], 'format': 'cmake', 'data': {'A': 'v', 'B': 'v', 'A_v': 7},
                'observed': repr(run_real(['${A_@B@}x${${B}}\n'], cd_for_data({'A': 'v', 'B': 'v', 'A_v': 7}), 'cmake')[1:])})
-    ck.finish(evaluations=tot.get('evaluations', 0) + ntot.get('evaluations', 0) + stot.get('evaluations', 0) + nfile + nhead + ntb,
+    ck.finish(evaluations=tot.get('evaluations', 0) + ntot.get('evaluations', 0) + stot.get('evaluations', 0) + vtot.get('evaluations', 0) + nfile + nhead + ntb,
               distinct_nontrivial=len(classes) + hclasses,
               rule='every sequence of <= %d fragments from the 32-fragment alphabet (%d sequences, %d distinct texts) x 100 data sets '
                    '(A,B in %r) x formats %s through the real do_conf_str (+ marker-structure runs for the meson format); names family: every sequence of '
                    '<= %d fragments from a 20-fragment alphabet of references with computed names x %d data sets (A, B and at most one further key out of the '
-                   'names that can be composed) x formats; directive spelling family: every sequence of <= %d fragments from a 17-fragment alphabet of '
-                   '#cmakedefine directives with white space before / after the # and around the name, value words and line endings x 100 data sets x {cmake, cmake@}; do_conf_file on all '
+                   'names that can be composed) x formats; directive spelling family: every sequence of <= %d fragments from a 19-fragment alphabet of '
+                   '#cmakedefine directives with white space before / after the # and around the name, value words and line endings x 100 data sets x {cmake, cmake@}; value names family (meson): '
+                   'every sequence of <= %d fragments from an 11-fragment alphabet of #mesondefine A/B, @A@ @B@ @U@ @V@, a longer word beginning with the keyword, filler and line endings x %d data sets whose values mention bound, '
+                   'unbound and their own names; do_conf_file on all '
                    'texts <= 2 fragments; dump_conf_header on all ordered key tuples <= 2 x values x description and all permutations of '
                    '3..%d keys x {c,nasm,json} x macro guard; tier B: all texts <= 2 fragments x data x formats through configure_file() of a real meson setup. distinct_nontrivial = number of distinct (format, set of reference line '
                    'features: var/escape kinds/define kinds/error/CRLF/unspecified reason) classes among templates having at least one '
-                   'feature + distinct (header format, value-kind set) classes' % (maxlen, nseq, nt, VALUES, FORMATS, ck.q(2, 3), len(N_DATASETS), ck.q(3, 4), 6 if ck.thorough else 4),
-              exhaustive=tot.get('not_run_after_hangs', 0) == 0)
+                   'feature + distinct (header format, value-kind set) classes' % (maxlen, nseq, nt, VALUES, FORMATS, ck.q(2, 3), len(N_DATASETS), ck.q(3, 4), ck.q(4, 5), len(V_DATASETS), 6 if ck.thorough else 4),
+              exhaustive=tot.get('not_run_after_hangs', 0) == 0 and not NOT_CONFIRMED)
 
 
 def replay(ck):
